@@ -4,6 +4,7 @@
     explicit panic!s).  Termination bounds: see LR/Termination.v when present. *)
 From Coq Require Import List ZArith.
 From LV Require Import LR.Driver LR.Validator LR.Safety LR.Soundness LR.NoPanic LR.Main.
+From LV Require Import Lex.Regex Lex.LexModel Lex.LexProps.
 Import ListNotations.
 
 Theorem C08_parser_never_panics : forall A C,
@@ -21,3 +22,17 @@ Theorem C08_accepts_never_panics : forall A C,
   forall fuel l a, SLinked A C l -> la_ok A a -> accepts A fuel l a <> APanic.
 Proof. exact accepts_no_panic. Qed.
 Print Assumptions C08_accepts_never_panics.
+
+(** the built-in lexer: every token consumes at least one byte and strictly shortens the remaining
+    text, so a token stream has at most |text| tokens and the matcher never yields empty tokens forever
+    (this is the repaired behaviour: see known_findings.txt) *)
+Theorem C08_lexer_token_progress : forall fuel pats text consumed start idx len text' c',
+  lex_next pats fuel text consumed = (LTok start idx len, text', c') ->
+  0 < len /\ length text' < length text.
+Proof. exact token_progress. Qed.
+Print Assumptions C08_lexer_token_progress.
+
+Theorem C08_lexer_terminates : forall fuel pats text consumed,
+  length text < fuel -> ~ In LFuel (tokens pats fuel text consumed).
+Proof. exact tokens_terminate. Qed.
+Print Assumptions C08_lexer_terminates.
